@@ -46,6 +46,23 @@ def check(repo: Repo, rep: Report) -> None:
     rep.rule("Q3-delegations", "repeat/retry/while_do/do_while/start_with/concat/for_in delegate to the sequencers; counts forwarded", floor=9)
     rep.rule("Q4-continuation-survives", "a continuation installed by a synchronously failing / completing source is not "
                                          "replaced by the late store of that source's own subscription (placeholder idiom)", floor=2)
+    rep.rule("Q6-trampolined-handover", "the sequencers hand over to the next source through the trampoline by default (`given or CurrentThreadScheduler`)", floor=3)
+    for rel_, q_ in (("reactivex/observable/concat.py", "concat_with_iterable_.subscribe"), ("reactivex/observable/catch.py", "catch_with_iterable_.subscribe"),
+                     ("reactivex/observable/onerrorresumenext.py", "on_error_resume_next_.subscribe")):
+        sf = repo.fn(rel_, q_)
+        defs_ = [n_.value for n_ in sf.direct_nodes() if isinstance(n_, ast.Assign) and isinstance(n_.value, ast.BoolOp) and isinstance(n_.value.op, ast.Or)
+                 and isinstance(n_.value.values[-1], ast.Call)]
+        okd = len(defs_) == 1 and "CurrentThreadScheduler" in u(defs_[0].values[-1])
+        rep.ob("Q6-trampolined-handover", sf, f"{sf.qual}: default scheduler `{short(defs_[0].values[-1], 50) if defs_ else '?'}`", okd,
+               f"{sf.qual} does not default to the trampoline: on an inline scheduler each hand-over to the next source is a nested call, so a long "
+               f"chain of synchronously completing sources (repeat, while_do, for_in, concat of many) overflows the stack and is cut by a RecursionError")
+    rep.rule("Q7-plus-is-concat", "Observable.__add__ / __iadd__ are concat(self, other), in that order", floor=2)
+    for dn in ("__add__", "__iadd__"):
+        dm = repo.fn("reactivex/observable/observable.py", f"Observable.{dn}")
+        rets_ = [x.node.value for x in sites(dm) if isinstance(x.node, ast.Return)]
+        okp = len(rets_) == 1 and isinstance(rets_[0], ast.Call) and call_name(rets_[0]) == "concat" and [u(a) for a in rets_[0].args] == ["self", dm.params[1]]
+        rep.ob("Q7-plus-is-concat", dm, f"{dn}: `{short(rets_[0], 40) if rets_ else '?'}`", okp,
+               f"Observable.{dn} is not concat(self, other): `xs + ys` / `xs += ys` subscribes the operands in the wrong order")
     rep.rule("Q5-error-identity", "the recorded last error decides by identity, not truthiness", floor=1)
     m_ = model_of(repo)
     ch = repo.fn("reactivex/operators/_catch.py", "catch_handler.subscribe")
